@@ -7,6 +7,8 @@ import (
 	"context"
 	"errors"
 	"fmt"
+	"os"
+	"path/filepath"
 	"sort"
 	"strconv"
 	"strings"
@@ -18,6 +20,7 @@ import (
 
 	impl "go.miragespace.co/specter/chord"
 	"go.miragespace.co/specter/kv/memory"
+	"go.miragespace.co/specter/kv/sqlite3"
 	"go.miragespace.co/specter/spec/chord"
 	"go.miragespace.co/specter/spec/mocks"
 	"go.miragespace.co/specter/spec/protocol"
@@ -31,6 +34,10 @@ var ErrUnreachable = errors.New("verif: node unreachable")
 type Fault func(target uint64, method string) int
 
 type Ring struct {
+	// Backend of the nodes' KV provider: "" / "memory" (default) or "sqlite" (one database per node
+	// under $VERIF_SCRATCH).
+	Backend string
+	closers []func()
 	// Interval of the nodes' background tasks and retry delays (default 1h = tasks never fire, the
 	// harness drives them explicitly); C07 uses milliseconds and lets the real timers run.
 	Interval time.Duration
@@ -62,7 +69,7 @@ func (r *Ring) New(id uint64) *impl.LocalNode {
 		BaseLogger:               zap.NewNop(),
 		ChordClient:              new(mocks.ChordClient),
 		Identity:                 &protocol.Node{Id: id, Address: "n" + strconv.FormatUint(id, 10)},
-		KVProvider:               memory.WithHashFn(chord.Hash),
+		KVProvider:               r.newKV(id),
 		StabilizeInterval:        r.interval(),
 		FixFingerInterval:        r.interval(),
 		PredecessorCheckInterval: r.interval(),
@@ -73,6 +80,46 @@ func (r *Ring) New(id uint64) *impl.LocalNode {
 	r.wraps[id] = &W{inner: n, r: r}
 	r.mu.Unlock()
 	return n
+}
+
+var sqlInitOnce sync.Once
+
+func (r *Ring) newKV(id uint64) chord.KVProvider {
+	if r.Backend != "sqlite" {
+		return memory.WithHashFn(chord.Hash)
+	}
+	base := os.Getenv("VERIF_SCRATCH")
+	if base == "" {
+		base = os.TempDir()
+	}
+	sqlInitOnce.Do(func() {
+		cache := os.Getenv("WAZERO_CACHE")
+		if cache == "" {
+			cache = filepath.Join(base, "wazero")
+		}
+		os.MkdirAll(cache, 0o755)
+		if err := sqlite3.Initialize(cache); err != nil {
+			panic(err)
+		}
+	})
+	dir, err := os.MkdirTemp(base, "ringsql")
+	if err != nil {
+		panic(err)
+	}
+	kv, err := sqlite3.New(sqlite3.Config{Logger: zap.NewNop(), HashFn: chord.Hash, DataDir: dir})
+	if err != nil {
+		panic(err)
+	}
+	r.closers = append(r.closers, func() { kv.Close(); os.RemoveAll(dir) })
+	return kv
+}
+
+// Close releases per-node resources (sqlite databases).
+func (r *Ring) Close() {
+	for _, c := range r.closers {
+		c()
+	}
+	r.closers = nil
 }
 
 func (r *Ring) interval() time.Duration {
